@@ -15,6 +15,10 @@ func Verif_H01Seq() {
 	}
 	keys := mkKeys(vrt.Param("keys", 2), vrt.Param("diglen", 4), c.bits)
 	m := newModel(len(keys))
+	// optional scripted prefix (symbolic data, symbolic file-size limits): histories longer
+	// than the free operations alone reach, e.g. a record list that is read back from disk
+	// after its file was rolled over and its pool copy replaced by a later flush
+	scriptedPrefix(s, c, keys, m, vrt.Param("prefix", 0))
 	n := vrt.Param("ops", 3)
 	for step := 0; step < n; step++ {
 		op := vrt.Choose("op", nBaseOps)
